@@ -88,7 +88,11 @@ package node
 //@   pure
 //@   ensures result == s.SkipCommKeysVerification
 
+// (C18: a sender registered with a key of any length - the opening proposal is not signature-checked and asks only
+// for ten bytes - is answered with an error, never with a fault inside ed25519.Verify)
 //@ func (*BaseNodeService).verifyMessage
+//@   safety C18
+//@   safetykinds index out of range, slice bounds
 //@   requires s != nil && fsmInstance != nil && (fsmInstance.dump != nil ==> fsmInstance.dump.Payload != nil)
 //@   pure
 //@   epilogue $mayWrite = old($mayWrite) || result == nil
